@@ -1,5 +1,6 @@
 """K-buf: sequential differential of Buffer.v against the real buffered JSON classes,
 plus the oracles of C05 / C06 / C07 / C15 / C17 evaluated on the same runs."""
+import contextlib
 import copy
 import os
 import shutil
@@ -113,6 +114,8 @@ class BSession:
         return contents, wrote, size, cap, bufd
 
     def call(self, fn):
+        set_current(lambda: {"harness": "K-buf", "class": self.cls.__name__, "seed": getattr(self, "seed", None),
+                             "steps_so_far": getattr(self, "log", None)})
         try:
             return ("ok", fn())
         except self.ns.errors.MetadataError as e:
@@ -303,10 +306,10 @@ class BSession:
             exp = ("err", err_class(e))
         if exp[0] == "ok" and exp[1] is NotImplemented:
             return
-        from k1 import strict_eq
+        from k1 import strict_eq, canon_key
         same = (res[0] == exp[0]) and (strict_eq(res[1], exp[1]) if res[0] == "ok" else res[1] == exp[1])
         if op[0] in ("DIter", "DKeys", "DValues", "DItems") and res[0] == "ok" and exp[0] == "ok":
-            same = strict_eq(sorted(res[1], key=repr), sorted(exp[1], key=repr))
+            same = strict_eq(sorted(res[1], key=canon_key), sorted(exp[1], key=canon_key))
         if not same:
             self.fail("C05-transparent", f"{op[0]} at {path}: impl {jsonable(res)} vs plain {jsonable(exp)} (logical {jsonable(self.logical_of(fi))})")
 
@@ -482,8 +485,12 @@ class BSession:
     def run_script(self, script):
         for oi, fi in enumerate(self.binding):
             self.s_new(oi, fi)
+        missing = set()
+        if script and script[0][0] == "missing":
+            missing, script = set(script[0][1]), script[1:]
         for fi in range(len(self.files)):
-            self.s_ext_init(fi, [1] if self.kind == "list" else {"a": 1})
+            if fi not in missing:
+                self.s_ext_init(fi, [1] if self.kind == "list" else {"a": 1})
         for st in script:
             if st[0] == "ext":
                 self.s_ext(st[1], st[2])
@@ -550,6 +557,19 @@ class BSession:
             op = g.list_read(cur) if want_read else g.list_mut(cur, 2)
         else:
             op = g.dict_read(cur) if want_read else g.dict_mut(cur, 2)
+        if not want_read and self.g.r.random() < 0.22:
+            # overwrite a slot with the value that is == to it but of another JSON type (1 <-> True <-> 1.0, 0 <-> False)
+            twin = {1: True, True: 1, 0: False, False: 0}
+            if isinstance(cur, dict):
+                ks = [k for k, v in cur.items() if type(v) in (int, bool) and v in (0, 1)]
+                if ks:
+                    k = self.g.r.choice(ks)
+                    op = ("DSet", k, (not cur[k]) if False else ({True: 1, False: 0}[cur[k]] if isinstance(cur[k], bool) else bool(cur[k])))
+            elif isinstance(cur, list):
+                ks = [i for i, v in enumerate(cur) if type(v) in (int, bool) and v in (0, 1)]
+                if ks:
+                    k = self.g.r.choice(ks)
+                    op = ("LSet", k, ({True: 1, False: 0}[cur[k]] if isinstance(cur[k], bool) else bool(cur[k])))
         return path, op
 
     def block(self, depth):
@@ -661,6 +681,7 @@ BPROFILES = {
     "C07cap": {"files": 2, "binding": [0, 0, 1], "w_op": 0.5, "w_ext": 0.1, "w_cap": 0.06, "reads": 0.3, "ctx_caps": [None, 0, 1, 50], "caps": [0, 1, 40, 10 ** 6]},
     "C15": {"files": 2, "binding": [0, 0, 1], "w_op": 0.5, "w_ext": 0.04, "w_cap": 0.1, "reads": 0.3, "ctx_caps": [None, 0, 1, 2, 25, 60, 10 ** 6], "caps": [0, 1, 2, 20, 40, 10 ** 6]},
     "C17": {"files": 2, "binding": [0, 0, 1], "w_op": 0.55, "reads": 1.0, "ctx_caps": [None, None, 10 ** 6], "init_p": 0.65, "w_reorder": 0.12},
+    "C17cap": {"files": 2, "binding": [0, 0, 1], "w_op": 0.55, "w_cap": 0.1, "reads": 1.0, "ctx_caps": [None, 0, 1, 5, 30], "caps": [0, 1, 10, 10 ** 6], "init_p": 0.8},
 }
 
 
@@ -708,6 +729,19 @@ def grid_scripts(kind, strat, seed, tier):
             sc.append(("op", 0, [], read_op))
             sc.append(("op", 1, [], read_op))
             yield f"{shape}:{a0}/{e0},{a1}/{e1}", sc
+        # file 0 does not exist when it enters the buffer and is created by an outside writer before the flush
+        for a0 in ("mod", "read"):
+            for a1 in ("mod", "none"):
+                sc = [("missing", [0])] + list(enters)
+                sc.append(("op", 0, [], mod_op(0) if a0 == "mod" else read_op))
+                if a1 == "mod":
+                    sc.append(("op", 1, [], mod_op(1)))
+                sc.append(("ext", 0, outv(20)))
+                for en in reversed(enters):
+                    sc.append(("xc",) if en[0] == "ec" else (("xo", en[1]) if en[0] == "eo" else ("nop",)))
+                sc = [x for x in sc if x[0] != "nop"]
+                sc += [("op", 0, [], read_op), ("op", 1, [], read_op)]
+                yield f"{shape}:{a0}/created-outside,{a1}/never", sc
 
 
 def run_grid(seed, tier, classes=None):
@@ -801,7 +835,7 @@ if __name__ == "__main__":
     n = int(sys.argv[3]) if len(sys.argv) > 3 else 40
     budget = int(sys.argv[4]) if len(sys.argv) > 4 else 40
     t = time.time()
-    out = run_sessions(prof, seed, n, budget)
+    out = run_grid(seed, "quick" if n < 100 else "thorough") if prof == "GRID" else run_sessions(prof, seed, n, budget)
     print("sessions", n, "impl time", round(time.time() - t, 1), "steps", sum(len(l) for l in out["logs"]), "oracle failures", len(out["oracle"]))
     for f in out["oracle"][:8]:
         print("  ORACLE", f["oracle"], f["cls"], "session", f["session"], "step", f["step"], f["detail"][:300])
@@ -819,3 +853,132 @@ if __name__ == "__main__":
             for j in range(max(0, st - 5), st + 1):
                 print("   ", j, json.dumps(out["logs"][b][j], default=repr)[:500])
     print(sorted(out["stats"].items()))
+
+
+# ------------------------------------------------------------------------------------------ C05: buffered vs unbuffered, same code
+def run_c05_diff(prop, tier, seed):
+    """C05 read literally: the same operation sequence (including operations that FAIL half-way, e.g. update() with a valid
+    entry followed by a forbidden one) is run unbuffered and inside every nesting of buffered contexts; every result, every
+    read in between and the final file content must agree.  Pure implementation-vs-specification oracle (no model)."""
+    import gen as gmod
+    from k1 import strict_eq
+    ns = import_library()
+    tmp = tempfile.mkdtemp(prefix="verif_c05d_")
+    res = {"name": "C05-differential", "model_mismatches": [], "oracle_failures": [], "samples": [], "stats": {}}
+    n = 6 if tier == "quick" else 120
+    nestings = ["none", "obj", "cls", "cls>obj", "obj>cls", "obj>obj"]
+    ev = 0
+
+    def script_for(g, kind):
+        ops = []
+        shadow = g.container(kind, 2, small=True)
+        init = copy.deepcopy(shadow)
+        for _ in range(g.r.randint(4, 9)):
+            # choose a position: root or a nested container
+            paths = [[]]
+            if isinstance(shadow, dict):
+                paths += [[k] for k, v in shadow.items() if isinstance(v, (dict, list))]
+            else:
+                paths += [[i] for i, v in enumerate(shadow) if isinstance(v, (dict, list))]
+            path = g.r.choice(paths)
+            tgt = shadow
+            for k in path:
+                tgt = tgt[k]
+            if g.r.random() < 0.3:
+                op = g.list_read(tgt) if isinstance(tgt, list) else g.dict_read(tgt)
+                if op[0] in ("LIndex", "LCount", "LContains"):
+                    continue
+            else:
+                op = g.list_mut(tgt, 2) if isinstance(tgt, list) else g.dict_mut(tgt, 2)
+                if g.r.random() < 0.35:
+                    bad = BAD_VALUES[g.r.choice([1, 2, 3])]
+                    if op[0] in ("DUpdate", "DReset") and isinstance(op[1], dict):
+                        v = dict(op[1]); v.setdefault("a", 1); v["zz_bad"] = bad
+                        op = (op[0], v)
+                    elif op[0] in ("LExtend", "LIAdd", "LReset") and isinstance(op[1], list):
+                        op = (op[0], list(op[1]) + [1, bad, 2])
+            ops.append((path, op))
+            try:
+                apply_lop(tgt, copy.deepcopy(op)) if isinstance(tgt, list) else apply_dop(tgt, copy.deepcopy(op))
+            except Exception:  # noqa
+                pass
+        return init, ops
+
+    def run(cls, fn, init, ops, nesting):
+        with open(fn, "w") as fh:
+            json.dump(init, fh)
+        x = cls(fn)
+        trace = []
+        with contextlib.ExitStack() as stack:
+            for lvl in ([] if nesting == "none" else nesting.split(">")):
+                stack.enter_context(x.buffered if lvl == "obj" else cls.buffer_backend())
+            for path, op in ops:
+                try:
+                    tgt = x
+                    for k in path:
+                        tgt = tgt[k]
+                    is_list = isinstance(object.__getattribute__(tgt, "_data"), list)
+                    conv = lambda v: v._to_base() if hasattr(v, "_to_base") else v   # noqa
+                    r = apply_lop(tgt, copy.deepcopy(op), conv) if is_list else apply_dop(tgt, copy.deepcopy(op), conv)
+                    r = ("ok", copy.deepcopy(r))
+                except Exception as e:  # noqa
+                    r = ("err", err_class(e))
+                trace.append((r, copy.deepcopy(x())))
+        with open(fn) as fh:
+            final = json.load(fh)
+        return trace, final, copy.deepcopy(x())
+    try:
+        classes = buffered_classes(ns)
+        for ci, cls in enumerate(classes):
+            kind = "list" if cls.__name__.endswith("List") else "dict"
+            for rep in range(n):
+                g = gmod.G(seed * 7919 + ci * 1009 + rep)
+                init, ops = script_for(g, kind)
+                base = None
+                for nesting in nestings:
+                    fn = os.path.join(tmp, f"d{ci}_{rep}_{nesting.replace('>', '_')}.json")
+                    try:
+                        got = run(cls, fn, init, ops, nesting)
+                    except Exception as e:  # noqa
+                        res["oracle_failures"].append({"oracle": "C05-differential", "cls": cls.__name__, "nesting": nesting, "seed": seed,
+                                                       "detail": f"the run itself raised {type(e).__name__}: {e}", "init": jsonable(init), "ops": jsonable(ops)})
+                        continue
+                    finally:
+                        BSession.reset_class(type("R", (), {"cls": cls, "default_cap": cls.get_buffer_capacity()})())
+                    ev += len(ops)
+                    if base is None:
+                        base = got
+                        continue
+                    why = None
+                    for i, ((r0, s0), (r1, s1)) in enumerate(zip(base[0], got[0])):
+                        same_r = r0[0] == r1[0] and (strict_eq(r0[1], r1[1]) if r0[0] == "ok" else r0[1] == r1[1])
+                        if op_order_free(ops[i][1]) and r0[0] == "ok" and r1[0] == "ok":
+                            from k1 import canon_key
+                            same_r = strict_eq(sorted(r0[1], key=canon_key), sorted(r1[1], key=canon_key))
+                        if not same_r:
+                            why = f"operation {i} {jsonable(ops[i])} returned {jsonable(r1)} inside [{nesting}], {jsonable(r0)} unbuffered"
+                        elif not strict_eq(s0, s1):
+                            why = f"after operation {i} {jsonable(ops[i])} (result {jsonable(r1)}) the collection reads {jsonable(s1)} inside [{nesting}], {jsonable(s0)} unbuffered"
+                        if why:
+                            break
+                    if why is None and not strict_eq(base[1], got[1]):
+                        why = f"after leaving [{nesting}] the file holds {jsonable(got[1])}; unbuffered it holds {jsonable(base[1])}"
+                    if why is None and not strict_eq(got[1], got[2]):
+                        why = f"after leaving [{nesting}] the file holds {jsonable(got[1])} but the collection reads {jsonable(got[2])}"
+                    if why:
+                        res["oracle_failures"].append({"oracle": "C05-differential", "cls": cls.__name__, "nesting": nesting, "seed": seed,
+                                                       "detail": why, "init": jsonable(init), "ops": jsonable(ops)})
+                key = f"{cls.__name__}"
+                res["stats"][key] = res["stats"].get(key, 0) + 1
+                if len(res["samples"]) < 2:
+                    res["samples"].append({"class": cls.__name__, "init": jsonable(init), "ops": jsonable(ops)})
+    finally:
+        shutil.rmtree(tmp, ignore_errors=True)
+    res.update(evaluations=ev, distinct_nontrivial=sum(res["stats"].values()), traces=0,
+               rule="random operation scripts (with operations failing half-way) per buffered class, run unbuffered and under 5 context nestings; "
+                    "distinct = scripts (seeded, one per (class, repetition))")
+    return res
+
+
+def op_order_free(op):
+    return op[0] in ("DIter", "DKeys", "DValues", "DItems")
